@@ -1,6 +1,6 @@
 import G3D.Proofs.Angle
 import G3D.Proofs.AngleReal
-import G3D.Extracted.Dispatch
+import G3D.Extracted.Dispangle
 /-! # C11 — angle, parallel, orthogonal agree with exact direction geometry
     The float angle is `arccos` of `t = u·v / (|u||v|)` folded by `acute`, or its complement for
     Line/Plane.  The model keeps `t²` (rational) and the fold/complement flag (`AngleRep`); the real-analysis
